@@ -336,26 +336,70 @@ Proof.
 Qed.
 
 (* ------------------------------------------------------------------ eigenvector centrality *)
-(* FULL statement: for symmetric non-negative A, u the unit eigenvector eig returns for the largest eigenvalue,
-   v = |u| is non-negative, has unit norm and A v = lam_max v.  The variational characterisation of lam_max
-   (Perron-Frobenius / spectral theorem) is ASSUMED as the two Rayleigh hypotheses; the rest is proved. *)
+(*   centrality.py eigenvector_centrality_und : vals, vecs = eigh / eigs(CIJ); return abs(vecs[:, argmax(vals)])
+   FULL (upgraded from C18_eigvec_abs_ok_partial; Proofs/LinearSpectralFull.v).  The hypotheses are EXACTLY the
+   specification of what the LAPACK call is asked for, plus the documented domain of the routine:
+     - A is symmetric (`_und`) and entrywise non-negative,
+     - (lam, u) is an eigenpair: A u = lam u,
+     - lam is the largest eigenvalue of the symmetric matrix = the top of its Rayleigh quotient: forall x, x^T A x <= lam x^T x
+       (what `argmax(vals)` selects; over the reals the two formulations are equivalent by the spectral theorem; over an
+        ordered field that is not real closed only the Rayleigh form says it - see C18_eigvec_old_statement_refuted).
+   NOTHING else is assumed: the former second hypothesis 'only eigenvectors attain the Rayleigh bound' is now PROVED
+   (first conjunct: for symmetric A ANY vector attaining the bound is an eigenvector - first-order condition, proved
+   algebraically: 0 <= lam|x+ty|^2 - (x+ty)^T A (x+ty) = 2t y^T(lam x - A x) + t^2 (lam|y|^2 - y^T A y) for every rational t
+   forces y^T(lam x - A x) = 0 for every y).  Conclusion: v = |u| is non-negative, has the norm of u (LAPACK: 1) and
+   A v = lam v - the returned vector is a non-negative eigenvector for the largest eigenvalue, whatever sign pattern u has.
+   Not modelled: that LAPACK's output meets its specification (checked numerically per run: residual, eigvalsh).
+   On a CONNECTED network the returned vector is moreover strictly positive and THE non-negative eigenvector of that norm
+   (no other eigenvalue has one): C04_eigenvector_abs_full in Properties/C04.v (it needs the Perron uniqueness lemma that
+   lives with C04; kept there so that this file does not depend on the distance models). *)
+From BCT Require Import Proofs.LinearSpectralFull Proofs.LinearSpectralReal.
+Theorem C18_eigvec_abs_ok :
+  (forall n (A : mat Q) (lam : Q),
+   (forall i j, (i < n)%nat -> (j < n)%nat -> A i j == A j i) ->
+   (forall x : vec Q, qform n A x <= lam * normsq n x) ->
+   forall x : vec Q, qform n A x == lam * normsq n x -> forall i, (i < n)%nat -> mvecQ n A x i == lam * x i) /\
+  (forall n (A : mat Q) (u : vec Q) (lam : Q),
+   (forall i j, (i < n)%nat -> (j < n)%nat -> 0 <= A i j) ->
+   (forall i j, (i < n)%nat -> (j < n)%nat -> A i j == A j i) ->
+   (forall i, (i < n)%nat -> mvecQ n A u i == lam * u i) ->
+   (forall x : vec Q, qform n A x <= lam * normsq n x) ->
+   (forall i, 0 <= vabs u i) /\
+   normsq n (vabs u) == normsq n u /\
+   (forall i, (i < n)%nat -> mvecQ n A (vabs u) i == lam * vabs u i)).
+Proof. split; [exact rayleigh_max_is_eigvec|exact eigvec_abs_ok]. Qed.
+
+(* The statement recorded before this extension (lam only required to dominate the eigenvalues that HAVE a non-zero
+   rational eigenvector) is kept verbatim - and is FALSE over Q: the path 0-1-2 has the eigenvalues sqrt 2, 0, -sqrt 2,
+   its only rational eigenpairs belong to 0, u = (1,0,-1) meets all three hypotheses with lam = 0 and A|u| = (0,2,0).
+   (No rational squares to 2: infinite descent.)  The Rayleigh bound implies that hypothesis (second conjunct), not
+   conversely: it is the right way to say 'largest eigenvalue' over Q. *)
 Definition C18_eigvec_full_statement : Prop :=
   forall n (A : mat Q) (u : vec Q) (lam : Q),
   (forall i j, (i < n)%nat -> (j < n)%nat -> 0 <= A i j /\ A i j == A j i) ->
   (forall i, (i < n)%nat -> mvecQ n A u i == lam * u i) ->
   (forall (x : vec Q) (mu : Q), (forall i, (i < n)%nat -> mvecQ n A x i == mu * x i) ->
-                                (exists i, (i < n)%nat /\ ~ x i == 0) -> mu <= lam) ->        (* lam is the largest eigenvalue *)
+                                (exists i, (i < n)%nat /\ ~ x i == 0) -> mu <= lam) ->        (* lam is the largest RATIONAL eigenvalue *)
   forall i, (i < n)%nat -> mvecQ n A (vabs u) i == lam * vabs u i.
+Theorem C18_eigvec_old_statement_refuted :
+  ~ C18_eigvec_full_statement /\
+  (forall n (A : mat Q) lam, (forall x : vec Q, qform n A x <= lam * normsq n x) ->
+   forall (x : vec Q) (mu : Q), (forall i, (i < n)%nat -> mvecQ n A x i == mu * x i) ->
+   (exists i, (i < n)%nat /\ ~ x i == 0) -> mu <= lam).
+Proof. split; [exact eigvec_old_full_statement_refuted|exact rayleigh_dominates]. Qed.
 
-Theorem C18_eigvec_abs_ok_partial : forall n (A : mat Q) (u : vec Q) (lam : Q),
-  (forall i j, (i < n)%nat -> (j < n)%nat -> 0 <= A i j) ->
-  (forall i, (i < n)%nat -> mvecQ n A u i == lam * u i) ->
-  (forall x : vec Q, qform n A x <= lam * normsq n x) ->
-  (forall x : vec Q, qform n A x == lam * normsq n x -> forall i, (i < n)%nat -> mvecQ n A x i == lam * x i) ->
-  (forall i, 0 <= vabs u i) /\
-  normsq n (vabs u) == normsq n u /\
-  (forall i, (i < n)%nat -> mvecQ n A (vabs u) i == lam * vabs u i).
-Proof. exact eigvec_abs_ok_partial. Qed.
+(* the same theorem over Coq's REALS (Proofs/LinearSpectralReal.v): real symmetric non-negative A, real eigenpair - the
+   generic case (lam_max and u irrational), which the rational theorem cannot express.  mvecR / qformR / normsqR / vabsR are
+   the real twins of mvecQ / qform / normsq / vabs (finite sums sumR over the grid). *)
+Theorem C18_eigvec_abs_ok_real : forall n (A : nat -> nat -> R) (u : nat -> R) (lam : R),
+  (forall i j, (i < n)%nat -> (j < n)%nat -> (0 <= A i j)%R) ->
+  (forall i j, (i < n)%nat -> (j < n)%nat -> A i j = A j i) ->
+  (forall i, (i < n)%nat -> mvecR n A u i = (lam * u i)%R) ->
+  (forall x : nat -> R, (qformR n A x <= lam * normsqR n x)%R) ->
+  (forall i, (0 <= vabsR u i)%R) /\
+  normsqR n (vabsR u) = normsqR n u /\
+  (forall i, (i < n)%nat -> mvecR n A (vabsR u) i = (lam * vabsR u i)%R).
+Proof. exact eigvec_abs_okR. Qed.
 
 (* ------------------------------------------------------------------ non-vacuity *)
 Example C18_nonvacuous_findwalks :
@@ -382,22 +426,22 @@ Example C18_nonvacuous_subgraph :
   hyp = true /\ a = b /\ a = [107 # 45; 107 # 45; 107 # 45; 107 # 45].
 Proof. vm_compute. repeat split; reflexivity. Qed.
 
-(* the Rayleigh hypotheses are satisfiable: K2 with lam = 1, u = (1, -1)... no: u must be a lam-eigenvector; u = (-1,-1) *)
+(* the four hypotheses of C18_eigvec_abs_ok are satisfiable: K_2, lam = 1, u = (-1,-1) (so |u| <> u) ... *)
 Example C18_nonvacuous_eigvec :
-  let A : mat Q := fun i j => if Nat.eqb i j then 0 else 1 in
-  (forall x : vec Q, qform 2 A x <= 1 * normsq 2 x) /\
-  (forall x : vec Q, qform 2 A x == 1 * normsq 2 x -> forall i, (i < 2)%nat -> mvecQ 2 A x i == 1 * x i).
-Proof.
-  cbv zeta. unfold qform, normsq, mvecQ. cbn [sumQ Nat.eqb].
-  assert (Hsq : forall y : Q, 0 <= y * y) by (intros y; unfold Qle, Qmult; cbn [Qnum Qden]; nia).
-  assert (Hex : forall a b : Q, (a - b) * (a - b) == a * a - (a * b + b * a) + b * b) by (intros; ring).
-  split.
-  - intros x. pose proof (Hsq (x 0%nat - x 1%nat)) as H. rewrite Hex in H. lra.
-  - intros x H i Hi.
-    assert (E : (x 0%nat - x 1%nat) * (x 0%nat - x 1%nat) == 0) by (rewrite Hex; lra).
-    apply Qmult_integral in E. assert (E' : x 0%nat == x 1%nat) by (destruct E; lra).
-    destruct i as [|[|i]]; [| |lia]; cbn [Nat.eqb]; lra.
-Qed.
+  (forall i j, (i < 2)%nat -> (j < 2)%nat -> 0 <= K2Q i j) /\
+  (forall i j, (i < 2)%nat -> (j < 2)%nat -> K2Q i j == K2Q j i) /\
+  (forall i, (i < 2)%nat -> mvecQ 2 K2Q (fun _ => -(1)) i == 1 * (fun _ => -(1)) i) /\
+  (forall x : vec Q, qform 2 K2Q x <= 1 * normsq 2 x).
+Proof. exact eigvec_abs_ok_nonvacuous. Qed.
+(* ... and those of the real version with an IRRATIONAL eigenpair: the path 0-1-2, lam = sqrt 2, u = (-1, -sqrt 2, -1);
+   |u| = (1, sqrt 2, 1) is the Perron vector *)
+Example C18_nonvacuous_eigvec_real :
+  (forall i j, (i < 3)%nat -> (j < 3)%nat -> (0 <= P3R i j)%R) /\
+  (forall i j, (i < 3)%nat -> (j < 3)%nat -> P3R i j = P3R j i) /\
+  (forall i, (i < 3)%nat -> mvecR 3 P3R P3uR i = (sqrt 2 * P3uR i)%R) /\
+  (forall x : nat -> R, (qformR 3 P3R x <= sqrt 2 * normsqR 3 x)%R) /\
+  (forall i, (i < 3)%nat -> mvecR 3 P3R (vabsR P3uR) i = (sqrt 2 * vabsR P3uR i)%R).
+Proof. exact eigvec_abs_okR_nonvacuous. Qed.
 
 (* K_4: D = 3, the a-priori bound 16 * (1+3+9+27) = 640 is below 2^53, so both indicators are true *)
 Example C18_nonvacuous_exact_range :
@@ -474,4 +518,6 @@ Print Assumptions C18_subgraph_truncated_exp.
 Print Assumptions C18_subgraph_expm.
 Print Assumptions C18_expm_defined.
 Print Assumptions C18_subgraph_expm_rational.
-Print Assumptions C18_eigvec_abs_ok_partial.
+Print Assumptions C18_eigvec_abs_ok.
+Print Assumptions C18_eigvec_old_statement_refuted.
+Print Assumptions C18_eigvec_abs_ok_real.
